@@ -574,9 +574,18 @@ class SlidingWindowView(Blockwise):
                     rechunk.array.chunks[sliding_axis], window
                 ):
                     # The overlap path would coarsen chunks up to the window;
-                    # compute on the input's native chunks instead.
+                    # compute on the input's native chunks instead.  The banded
+                    # plan is only valid for the chunks checked just now, so
+                    # pin them: a later rewrite of the input onto other chunks
+                    # (e.g. its own native sliding-window rewrite) is bridged
+                    # back at lowering.
+                    from dask_array._expr import ChunksFreeze
+
+                    native_input = rechunk.array
+                    if not isinstance(native_input, ChunksFreeze):
+                        native_input = ChunksFreeze(native_input, native_input.chunks)
                     return SlidingWindowReduction(
-                        rechunk.array,
+                        native_input,
                         window,
                         sliding_axis,
                         window_axis,
